@@ -5,9 +5,10 @@
    the object reloaded from its own file saves to the SAME BYTES (C04_save_of_reloaded: names are written upper-cased
    anyway, the DATA_START value and the header data-start word are patched anyway, point and channel names are not
    written), hence load (save s) = s1 and save s1 = save s, and every later generation is byte-identical and reloads to
-   s1 (C04_generations_fixpoint).  Outside those hypotheses (placeholder groups of sparse group ids, non-zero reserved
-   header words) the property is decided by the C04 check on the spec-encoded corpus and the vendor files. *)
-From EZ Require Import Base Bytes Types Api Enc Dec Float32 Run Proofs_Codec Proofs_Section Proofs_Record Proofs_Chain Proofs_ChainW Proofs_HeaderCodec Proofs_RoundTrip.
+   s1 (C04_generations_fixpoint); also for trees with placeholder groups, i.e. objects loaded from files with sparse group
+   ids (C04_second_generation_sparse_ids).  Outside those hypotheses (non-zero reserved header words, content outside wf_param) the property is decided by the C04 check on the spec-encoded corpus and the vendor files. *)
+From Coq Require Import Lia ZifyNat ZifyN ZifyBool.
+From EZ Require Import Base Bytes Types Api Enc Dec Float32 Run Proofs_Bytes Proofs_Lookup Proofs_Param Proofs_Codec Proofs_Section Proofs_Record Proofs_Chain Proofs_ChainW Proofs_HeaderCodec Proofs_RoundTrip.
 Local Open Scope N_scope.
 
 (* once a generation reloads to a state that saves to the same bytes, every later generation is byte-identical *)
@@ -54,6 +55,113 @@ Proof.
   - rewrite (save_reloaded s blocks pn an Hst Hds). exact Sv.
 Qed.
 Print Assumptions C04_second_generation.
+
+(* the same for a tree with PLACEHOLDER groups — an object loaded from a file whose group ids are sparse keeps nameless empty
+   groups at the unused ids; they are not written, and the walker re-creates them when it meets a later group *)
+Theorem C04_second_generation_sparse_ids : forall f_key f_tosize f_div s bytes sec blocks pn an,
+  save s = Ok bytes -> section_bytes (pro s) (groups s) = Ok (sec, blocks) ->
+  wf_hdr (hdr s) -> wf_header (hdr s) ->
+  ok_tree (groups s) -> (nds (recs_of (groups s) 1) <= 1)%nat ->
+  (forall g, In g (groups s) -> (is_placeholder g = true -> g = ph) /\ (is_placeholder g = false -> group_ok g)) ->
+  (groups s <> [] -> is_placeholder (last (groups s) ph) = false) ->
+  blocks + 1 < 256 -> ps_start (pro s) = 1 ->
+  Forall wf_item (items_v (groups s) 1 (blocks + 1)) ->
+  (let s1 := mkState (with_dstart (hdr s) (blocks + 1)) (mkPro 1 80 (blocks - 1) 84) (map (canon_g (blocks + 1)) (groups s)) [] in
+   update_header f_key f_tosize f_div false s1 = ROk tt s1) ->
+  (let h := with_dstart (hdr s) (blocks + 1) in let gs := map (canon_g (blocks + 1)) (groups s) in
+   h_nb_frames h = nlen (frames s) /\ nlen (frames s) <= max_frames_vec /\
+   nlen (frames s) * (1 + 4 * h_points h + h_byframe h * (1 + h_nb_analogs h)) <= 1048576 /\
+   (if 0 <? h_points h then obind (group_named gs nm_POINT) (fun g => obind (param_named g nm_LABELS) values_as_string) = Ok pn else pn = []) /\
+   (if 0 <? h_nb_analogs h then obind (group_named gs nm_ANALOG) (fun g => obind (param_named g nm_LABELS) values_as_string) = Ok an else an = []) /\
+   (frames s <> [] -> (h_scale h < 0)%Z) /\
+   Forall (uniform (N.to_nat (h_points h)) (N.to_nat (h_byframe h)) (N.to_nat (h_nb_analogs h))) (frames s)) ->
+  (forall g, In g (groups s) -> forall p, In p (g_params g) -> ds_name_stable p) ->
+  exists s1, load f_key f_tosize f_div bytes = Ok s1 /\ save s1 = Ok bytes.
+Proof.
+  intros f_key f_tosize f_div s bytes sec blocks pn an Sv Hs Wh Wl Hok Hn Hg Hl Hb Hst Wf Hu Hd Hds.
+  exists (reloaded s blocks pn an). split.
+  - exact (load_save_sparse f_key f_tosize f_div s bytes sec blocks pn an Sv Hs Wh Wl Hok Hn Hg Hl Hb Hst Wf Hu Hd).
+  - rewrite (save_reloaded s blocks pn an Hst Hds). exact Sv.
+Qed.
+Print Assumptions C04_second_generation_sparse_ids.
+
+(* non-vacuity: an object whose tree has two placeholder groups before its last group: generation 2 has the same bytes,
+   and the placeholders are back after the reload (obtained from the theorems) *)
+Ltac wfp := unfold wf_param, name_ok, desc_ok, dims_ok, typed_ok, str_ok, no_nul, int16, int8, wf32, byte_ok, LIMC; cbn;
+  repeat split; try lia; try discriminate; repeat constructor; try lia; try discriminate.
+
+Definition sparse_run : option state :=
+  let rate := mkParam nm_RATE [] false TFloat [1] [] [1120403456] [] in
+  let f := mkFrame [mkPoint [97] 1065353216 1073741824 1077936128 1082130432] [] in
+  match step_x init (OPoint [97]) with ROk _ s1 =>
+  match step_x s1 (OParam nm_POINT rate) with ROk _ s2 =>
+  match step_x s2 (OFrame f None) with ROk _ s3 => Some s3 | _ => None end | _ => None end | _ => None end.
+Definition sparse_state : state := Eval vm_compute in
+  match sparse_run with
+  | Some s => mkState (hdr s) (pro s) (groups s ++ [ph; ph; mkGroup [88;89] [100] true [mkParam [75] [] false TInt [2] [7; -7]%Z [] []]]) (frames s)
+  | None => init end.
+
+Lemma sparse_section : exists sec, section_bytes (pro sparse_state) (groups sparse_state) = Ok (sec, 2).
+Proof. eexists. vm_compute. reflexivity. Qed.
+Print Assumptions sparse_section.
+Lemma sparse_hdr : wf_hdr (hdr sparse_state) /\ wf_header (hdr sparse_state).
+Proof.
+  unfold wf_hdr, wf_header, u16, int32, frame_no_ok, wf32, lab_ok, no_nul. cbn.
+  repeat split; try lia; try reflexivity; repeat constructor; cbn; try lia.
+Qed.
+Print Assumptions sparse_hdr.
+Lemma sparse_tree :
+  ok_tree (groups sparse_state) /\ (nds (recs_of (groups sparse_state) 1) <= 1)%nat /\
+  (forall g, In g (groups sparse_state) -> (is_placeholder g = true -> g = ph) /\ (is_placeholder g = false -> group_ok g)) /\
+  (groups sparse_state <> [] -> is_placeholder (last (groups sparse_state) ph) = false) /\
+  Forall wf_item (items_v (groups sparse_state) 1 3).
+Proof.
+  split.
+  { intros g Hg Pl. cbn in Hg.
+    repeat (destruct Hg as [<-|Hg]; [first [discriminate Pl | split; [unfold wf_group_hdr, name_ok, desc_ok, no_nul; cbn; repeat split; try lia; repeat constructor; discriminate|
+       intros p Hp; cbn in Hp; repeat (destruct Hp as [<-|Hp]; [unfold ok_param; cbn; first [split; reflexivity | wfp]|]); destruct Hp]]|]).
+    destruct Hg. }
+  split; [vm_compute; lia|]. split.
+  - intros g Hg. cbn in Hg.
+    repeat (destruct Hg as [<-|Hg]; [split; [intros Pl; first [reflexivity|discriminate Pl]|intros Pl; first [discriminate Pl|split; [cbn; repeat constructor; cbn; intuition discriminate|intros p Hp; cbn in Hp; repeat (destruct Hp as [<-|Hp]; [discriminate|]); destruct Hp]]]|]).
+    destruct Hg.
+  - split; [intros _; reflexivity|].
+    cbn [items_v sparse_state groups is_placeholder g_name g_params nlen length N.of_nat N.eqb andb map app item_of_param is_ds ph new_group].
+    repeat (apply Forall_cons); try apply Forall_nil;
+      (cbn; first [ split; [lia|unfold wf_group_hdr, name_ok, desc_ok, no_nul; cbn; repeat split; try lia; repeat constructor; discriminate]
+                  | split; [lia|split; [wfp|cbn; lia]] ]).
+Qed.
+Print Assumptions sparse_tree.
+Lemma sparse_update_noop :
+  let s1 := mkState (with_dstart (hdr sparse_state) 3) (mkPro 1 80 1 84) (map (canon_g 3) (groups sparse_state)) [] in
+  update_header_x false s1 = ROk tt s1.
+Proof. vm_compute. reflexivity. Qed.
+Print Assumptions sparse_update_noop.
+Lemma sparse_data :
+  let h := with_dstart (hdr sparse_state) 3 in let gs := map (canon_g 3) (groups sparse_state) in
+  h_nb_frames h = nlen (frames sparse_state) /\ nlen (frames sparse_state) <= max_frames_vec /\
+  nlen (frames sparse_state) * (1 + 4 * h_points h + h_byframe h * (1 + h_nb_analogs h)) <= 1048576 /\
+  (if 0 <? h_points h then obind (group_named gs nm_POINT) (fun g => obind (param_named g nm_LABELS) values_as_string) = Ok [[97]] else [[97]] = []) /\
+  (if 0 <? h_nb_analogs h then obind (group_named gs nm_ANALOG) (fun g => obind (param_named g nm_LABELS) values_as_string) = Ok [] else @nil bstr = []) /\
+  (frames sparse_state <> [] -> (h_scale h < 0)%Z) /\
+  Forall (uniform (N.to_nat (h_points h)) (N.to_nat (h_byframe h)) (N.to_nat (h_nb_analogs h))) (frames sparse_state).
+Proof.
+  cbv zeta. split; [vm_compute; reflexivity|]. split; [vm_compute; discriminate|]. split; [vm_compute; discriminate|].
+  split; [vm_compute; reflexivity|]. split; [vm_compute; reflexivity|]. split; [intros _; vm_compute; reflexivity|].
+  unfold uniform, wf_point, wf_chan, wf32. cbn. repeat constructor; cbn; lia.
+Qed.
+Print Assumptions sparse_data.
+Example C04_sparse_ids_nonvacuous : exists bytes s1, save_x sparse_state = Ok bytes /\ load_x bytes = Ok s1 /\ save_x s1 = Ok bytes /\
+  nlen (groups s1) = 6 /\ nth_error (groups s1) 3 = Some ph.
+Proof.
+  destruct sparse_section as [sec Hs]. destruct sparse_hdr as [Wh Wl]. destruct sparse_tree as (Hok & Hn & Hg & Hl & Wf).
+  assert (Sv : exists bytes, save_x sparse_state = Ok bytes) by (unfold save_x, save; rewrite Hs; eexists; reflexivity).
+  destruct Sv as [bytes Sv]. exists bytes, (reloaded sparse_state 2 [[97]] []). split; [exact Sv|]. split.
+  - exact (load_save_sparse f_key_impl f_tosize_impl f_div_impl sparse_state bytes sec 2 [[97]] [] Sv Hs Wh Wl Hok Hn Hg Hl eq_refl eq_refl Wf sparse_update_noop sparse_data).
+  - split; [|split; reflexivity]. unfold save_x. rewrite save_reloaded; [exact Sv|reflexivity|].
+    apply ds_stable_of_b. vm_compute. reflexivity.
+Qed.
+Print Assumptions C04_sparse_ids_nonvacuous.
 
 (* frames of generation 2 = frames of generation 1 (data-section stage), for any sizes *)
 Theorem C04_partial_frames : forall fs np ns nc pn an st r,
